@@ -291,7 +291,7 @@ func TestC02(t *testing.T) {
 					nt++
 				}
 			}
-			Enum(h, "pair", len(ps.cases), func(i int) PairCase { return ps.cases[i] }, func(i int) bool { return checkPairRoundTrip(ps.cases[i]) == nil }, checkPairRoundTrip)
+			Enum(h, "pair", len(ps.cases), func(i int) PairCase { return ps.cases[i] }, nil, checkPairRoundTrip)
 			if !h.replaying() {
 				h.R.AddExact(int64(len(ps.cases)), nt)
 				h.R.Count(fmt.Sprintf("pair grid v%s (ordered (metric,value) pairs x %d backgrounds)", ps.v.Name, nBackgrounds), int64(len(ps.cases)))
@@ -552,7 +552,7 @@ func TestC07(t *testing.T) {
 	if env.Shards <= 1 {
 		for vi := range spec.Versions {
 			ps := newPairSpace(vi)
-			Enum(h, "pair", len(ps.cases), func(i int) PairCase { return ps.cases[i] }, func(i int) bool { return checkPairSet(ps.cases[i]) == nil }, checkPairSet)
+			Enum(h, "pair", len(ps.cases), func(i int) PairCase { return ps.cases[i] }, nil, checkPairSet)
 			if !h.replaying() {
 				h.R.AddExact(int64(len(ps.cases)), int64(len(ps.cases)))
 				h.R.Count(fmt.Sprintf("pair grid v%s (ordered (metric,value) pairs x %d backgrounds)", ps.v.Name, nBackgrounds), int64(len(ps.cases)))
@@ -746,7 +746,7 @@ func TestC09(t *testing.T) {
 				}
 			}
 		}
-		Enum(h, "offer", len(grid), func(i int) Offer { return grid[i] }, func(i int) bool { return checkOffer(grid[i]) == nil }, checkOffer)
+		Enum(h, "offer", len(grid), func(i int) Offer { return grid[i] }, nil, checkOffer)
 		if !h.replaying() {
 			near := 0
 			for _, c := range grid {
@@ -792,7 +792,7 @@ func checkNomenclature(c NomCase) error {
 }
 
 func TestC16(t *testing.T) {
-	h := start(t, "C16", "v4.0 objects: (a) exhaustively every single optional metric (E, 14 environmental, 6 supplemental) x every non-X value x 10 base backgrounds, everything else X; (b) every pair of defined optional metrics (first non-X value and last value) on one background; (c) generated objects with corner profiles; the oracle is the nomenclature rule evaluated on the model; non-trivial = at least one optional metric defined; distinct by assignment")
+	h := start(t, "C16", "v4.0 objects: (a) exhaustively every single optional metric (E, 14 environmental, 6 supplemental) x every non-X value x 10 base backgrounds, everything else X; (b) every pair of optional metrics x every pair of their non-X values on one background; (c) generated objects with corner profiles; the oracle is the nomenclature rule evaluated on the model; non-trivial = at least one optional metric defined; distinct by assignment")
 	// (a) singletons, (b) pairs
 	var cases []NomCase
 	opt := spec.V4.Optional()
@@ -820,8 +820,8 @@ func TestC16(t *testing.T) {
 	nSingles := len(cases)
 	for i, m1 := range opt {
 		for _, m2 := range opt[i+1:] {
-			for _, v1 := range []string{m1.Vals[1], m1.Vals[len(m1.Vals)-1]} {
-				for _, v2 := range []string{m2.Vals[1], m2.Vals[len(m2.Vals)-1]} {
+			for _, v1 := range m1.Vals[1:] {
+				for _, v2 := range m2.Vals[1:] {
 					a := baseBG(3)
 					a[m1.Abv], a[m2.Abv] = v1, v2
 					cases = append(cases, NomCase{a})
@@ -830,11 +830,11 @@ func TestC16(t *testing.T) {
 		}
 	}
 	if env.Shards <= 1 {
-		Enum(h, "enumerated", len(cases), func(i int) NomCase { return cases[i] }, func(i int) bool { return checkNomenclature(cases[i]) == nil }, checkNomenclature)
+		Enum(h, "enumerated", len(cases), func(i int) NomCase { return cases[i] }, nil, checkNomenclature)
 		if !h.replaying() {
 			h.R.AddExact(int64(len(cases)), int64(len(cases)-10))
 			h.R.Count("exactly one optional metric defined (exhaustive: metric x value x 10 backgrounds)", int64(nSingles-10))
-			h.R.Count("exactly two optional metrics defined (all metric pairs, extreme values)", int64(len(cases)-nSingles))
+			h.R.Count("exactly two optional metrics defined (all metric pairs x all value pairs)", int64(len(cases)-nSingles))
 			h.R.Sample("singleton", map[string]any{"vector": spec.Canon(spec.V4, cases[17].A), "expected": spec.NomenclatureV4(cases[17].A)})
 			h.R.Sample("pair", map[string]any{"vector": spec.Canon(spec.V4, cases[nSingles+5].A), "expected": spec.NomenclatureV4(cases[nSingles+5].A)})
 		}
@@ -925,7 +925,7 @@ func TestC15(t *testing.T) {
 	h := start(t, "C15", "float64 scores offered to Rating of the 3.0, 3.1 and 4.0 packages: an exhaustive boundary list (every threshold with +-1..3 ulp and small offsets, all 101 one-decimal scores in both spellings k/10 and k*0.1 with their ulp neighbours, -0, +-Inf, +-MaxFloat64, subnormals), rapid floats (uniform bit patterns, uniform in [-1,11], near a threshold), and scores produced by the scoring functions; oracle: five-line piecewise scale; non-trivial = within 0.05 of a threshold or of a one-decimal score; distinct by bit pattern")
 	bf := boundaryFloats()
 	if env.Shards <= 1 {
-		Enum(h, "boundary", len(bf), func(i int) RatingCase { return rc(bf[i]) }, func(i int) bool { return checkRating(rc(bf[i])) == nil }, checkRating)
+		Enum(h, "boundary", len(bf), func(i int) RatingCase { return rc(bf[i]) }, nil, checkRating)
 		if !h.replaying() {
 			seen := map[uint64]bool{}
 			for _, x := range bf {
